@@ -214,19 +214,20 @@ def uroles(ctx):
     return r
 
 
-def armed_flag_skips(prog, r, gd, restores):
+def armed_flag_skips(prog, r, gd, restores, guard_adt=None):
     """`armed`-flag form of the guard: arms of bool switches in the guard's Drop that skip the restore and are taken only
     for a guard that was disarmed: the switch tests one bool field of the guard, every construction of the guard sets
     that field to the other value, and the only writes of the skipping value are in methods that consume the guard
     (the disarm functions, whose call sites the disarm rule examines)."""
     gan = prog.an(gd)
+    GA = guard_adt or r.GETGUARD
     out = []
     for blk in gd.blocks:
         t = blk.term
         if t.kind != 'switch' or t.j.get('dty') != 'bool' or blk.cleanup:
             continue
         src = sources(gan, t.discr)
-        flds = {s[1] for s in src if s[0] == 'field' and s[1].startswith(r.GETGUARD + '.')}
+        flds = {s[1] for s in src if s[0] == 'field' and s[1].startswith(GA + '.')}
         rest = [s for s in src if s[0] not in ('field', 'arg') and not (s[0] == 'bin' and s[1] == 'Not')]
         if len(flds) != 1 or rest:
             continue
@@ -246,10 +247,10 @@ def armed_flag_skips(prog, r, gd, restores):
                     for s in bl.stmts:
                         if s.kind != 'assign':
                             continue
-                        if s.rv.kind == 'agg' and s.rv.j.get('adt') == r.GETGUARD and fld in s.rv.j.get('fields', []):
+                        if s.rv.kind == 'agg' and s.rv.j.get('adt') == GA and fld in s.rv.j.get('fields', []):
                             ctor_vals.append(prog.an(b).resolve_operand(s.rv.ops[s.rv.j['fields'].index(fld)]))
-                        elif s.place.has_field(r.GETGUARD, fld):
-                            consuming = b.arg_count >= 1 and adt_of(b.locals[1]['ty']) == r.GETGUARD and not b.locals[1]['ty'].startswith('&') and b.j.get('impl_trait') != 'std::ops::Drop'
+                        elif s.place.has_field(GA, fld):
+                            consuming = b.arg_count >= 1 and adt_of(b.locals[1]['ty']) == GA and not b.locals[1]['ty'].startswith('&') and b.j.get('impl_trait') != 'std::ops::Drop'
                             writes.append((prog.an(b).resolve_operand(s.rv.ops[0]) if s.rv.kind == 'use' else '?', consuming))
             want_ctor = 'false' if skip_value else 'true'
             want_write = 'true' if skip_value else 'false'
